@@ -44,6 +44,7 @@ func (x *Ctx) AtEnd(f func(x *Ctx)) { x.finish = append(x.finish, f) }
 type Scenario struct {
 	Name     string
 	Prop     string
+	Also     []string // further properties this scenario also decides a clause of
 	Doc      string
 	Body     func(x *Ctx)
 	Fine     bool // baselibrary primitives become decision points
@@ -70,7 +71,11 @@ func Get(name string) *Scenario { return registry[name] }
 func ByProp(prop string) []*Scenario {
 	var out []*Scenario
 	for _, s := range registry {
-		if s.Prop == prop {
+		match := s.Prop == prop
+		for _, a := range s.Also {
+			match = match || a == prop
+		}
+		if match {
 			out = append(out, s)
 		}
 	}
